@@ -954,6 +954,7 @@ class Interp:
             raise PathEnd("loop cut")
         else:
             self.ctx.cover(f"{fn}#loop{ordn}.exit")
+            self.ctx.event("loop-exit", ordn)
             if hasattr(s, "orelse") and s.orelse:
                 self.exec_block(s.orelse, fr)
 
